@@ -491,6 +491,30 @@ def run_batch(b):
             for tname, text in hostile_texts():
                 lm = R.LMsg(1, 0x80, 316, 16777251, 1, 2, [R.LAvp(264, 0x40, None, b"peer.example.org"), R.LAvp(row["code"], row["flags"], row["vendor"], text)])
                 cases.append(("%s:%s:%s" % (row["type"], cname, tname), R.encode(lm)))
+        if b["i"] == 0:
+            # complete nests: a dictionary Grouped AVP nested in itself with every mandatory member present at every level (the
+            # nests of the typed batch lack them and are refused at the first level).  The work of decoding them may grow with
+            # the length of the input, not with 2^depth.
+            for cname, row in sorted(rd.items()):
+                if row["type"] != "Grouped" or not row["mandatory"]:
+                    continue
+                members = []
+                usable = True
+                for mname in row["mandatory"].values():
+                    mrow = rd[mname]
+                    if mrow["type"] == "Grouped":
+                        usable = False
+                        break
+                    members.append(g.avp(g.by_name[mname]).lavp)
+                if not usable:
+                    continue
+                for depth in (8, 14, 20, 32, 60, 150):
+                    inner = R.LAvp(row["code"], row["flags"], row["vendor"], list(members))
+                    for _ in range(depth):
+                        inner = R.LAvp(row["code"], row["flags"], row["vendor"], list(members) + [inner])
+                    lm = R.LMsg(1, 0x80, 316, 16777251, 1, 2, [R.LAvp(264, 0x40, None, b"peer.example.org"), inner])
+                    cases.append(("complete-nest:%s:depth%d" % (cname, depth), R.encode(lm)))
+                    acc.counters["complete_nests"] += 1
         cpu_bounded_decodes(acc, cases)
         acc.sample({"hostile_text_example": cases[0][0] if cases else None})
         return acc
@@ -554,7 +578,7 @@ def main(tier, seed):
                            "memory growth is bounded by the iteration bound plus RLIMIT_AS on the worker",
                            "hostile text (long legal runs closed by an illegal character, nested separators) in every text-typed dictionary AVP is decoded in a child process under a CPU-time limit of 4 s per decode (RLIMIT_CPU: consumed CPU seconds, not wall-clock time)"],
                           t0, extra_cov={"sweep24_exhaustive": not q},
-                          require_counters=("decodes", "library_errors", "cpu_bounded_decodes", "guard_armed", "node_scenarios", "stayed_responsive", "deep_nesting_decodes"))
+                          require_counters=("decodes", "library_errors", "cpu_bounded_decodes", "complete_nests", "guard_armed", "node_scenarios", "stayed_responsive", "deep_nesting_decodes"))
 
 
 def replay(w):
